@@ -409,6 +409,7 @@ func dialSrv(port int) (*tcpClient, error) {
 }
 
 func (t *tcpClient) do(args ...string) (resp.Value, error) {
+	sconn.NextSeq() // progress for the child watchdog
 	t.c.SetDeadline(time.Now().Add(20 * time.Second))
 	if _, err := t.c.Write(resp.Encode(resp.Cmd(args...))); err != nil {
 		return resp.Value{}, err
